@@ -1,6 +1,7 @@
 #!/usr/bin/env python3
-"""Regenerates /verif/MANIFEST.json from the per-property table below."""
-import json, os
+"""Regenerates /verif/MANIFEST.json from tools/claims.d/<id>.json (claimed properties:
+keys text, note, ref) and tools/na.json (id -> reason for the rest)."""
+import json, os, glob
 
 ROOT = os.path.dirname(os.path.dirname(os.path.abspath(__file__)))
 props = [json.loads(l) for l in open(os.path.join(ROOT, "properties.jsonl"))]
@@ -11,28 +12,17 @@ TRUST = ("Trusted: go/packages+go/types+go/ssa (x/tools v0.50.0, go1.26.8) as th
          "(guarded by native replay of every counterexample and by must-fail selftests), z3 4.8.12. amd64 sizes, 64-bit int. "
          "Package init is not executed: package-level initialisers are evaluated from SSA, class/module singletons are distinct opaque objects. ")
 
-# id -> (claim text (bounds), note (outside + stubs), design section)
-CLAIMS = {
- "C32": ("Bounded model checking of the real bytecode.LineInfoList code: from an arbitrary well-formed run-length list of <= 3 entries (symbolic lines, symbolic counts 1..2^20) GetLineNumber equals the flat per-instruction line sequence for every index, AddLineNumber appends exactly `bytes` instructions of `line` and keeps runs maximal and counts positive, RemoveByte drops exactly the last instruction. The solver decides each assertion for all values within that bound.",
-         "Outside the claim: lists longer than 3 entries, native callbacks' synthetic frames, promise/generator re-throw stitching and BuildStackTrace over real call frames (needs the run loop). " + TRUST,
-         "DESIGN.md section 6 C32"),
- "C34": ("Bounded model checking of the real `describe`/`test` natives of ext/std/test (resolved from their vm.Def call sites in the current SSA), SuiteMatchesFilters/CaseMatchesFilters, PathFilter and RegexFilter: suite tree root->describe->describe->case with symbolic line intervals constrained only by nesting, 0-2 path filters with symbolic line (incl. -1), optional grep filter in either registration order; assertion: the case is registered exactly once iff it satisfies every filter (path filter: file matches and line unspecified, inside the case, or the first line of an enclosing describe). Status fold: <= 3 case statuses through RegisterCaseReport/RegisterSubSuiteReport/UpdateStatus and the exit mapping of runTestFile.",
-         "Outside: glob patterns with metacharacters (doublestar is modelled for literal patterns only: match iff equal), non-literal grep patterns (regex modelled as substring test for literal patterns), deeper trees, before/after hooks, cases actually executed by the VM. Two genuine defects are recorded in known_findings.jsonl (describe-line filter combined with another filter; exit status when nothing is selected). " + TRUST,
-         "DESIGN.md section 6 C34"),
-}
-
-NA = {
-}
-
-CLAIMS["C06"] = ("Bounded model checking of the real Int kernels (value.AddVal/SubtractVal/MultiplyVal/DivideVal/ModuloVal/ExponentiateVal/NegateVal/IncrementVal/DecrementVal/CompareVal/GreaterThan..LessThanEqualVal/EqualVal/LaxEqualVal and everything they reach in small_int.go/big_int.go, BitwiseAnd/Or/Xor/AndNot/NotVal, LeftBitshiftVal/RightBitshiftVal with every AnyInt kind as the count, BigInt.IsEven/IsOdd). Operands: SmallInt (all 2^64 values) or canonical BigInt, all four representation pairs. Integer back end for + - * / % neg inc dec cmp ** : operands of unbounded magnitude as mathematical integers, math/big modelled exactly, machine arithmetic with explicit wrap/division witnesses; exponents 0..3. Bit-vector back end for bitwise and shifts: big integers are 192-bit two's complement with |v| < 2^126, shift counts exact for |count| <= 100 and crash-free for every count whose result fits 192 bits. Assertions: result is the exact mathematical integer, canonical representation (SmallInt iff it fits int64), a == (a/b)*b + a%b, ZeroDivisionError exactly for zero divisors, comparisons agree with the integer order, operands are never modified.",
-  "Outside: exponents > 3, shift counts whose result exceeds 192 bits (memory-exhaustion territory), String#to_int and literal parsing, Int x Float / BigFloat mixed results (C07/C18), the VM's typed opcodes and constant folder (C08), hash/inspect of the result (equal representation is shown instead: one canonical representation per integer). math/big is a model (checked by native replay of every counterexample), not its source. " + TRUST,
-  "DESIGN.md section 6 C06")
+CLAIMS = {}
+for f in sorted(glob.glob(os.path.join(ROOT, "tools", "claims.d", "*.json"))):
+    pid = os.path.basename(f)[:-5]
+    CLAIMS[pid] = json.load(open(f))
+NA = json.load(open(os.path.join(ROOT, "tools", "na.json")))
 
 checks = []
 for p in props:
     pid = p["id"]
     if pid in CLAIMS:
-        text, note, ref = CLAIMS[pid]
+        c = CLAIMS[pid]
         checks.append({
             "property_id": pid,
             "quick_cmd": f"./check {pid} --tier quick",
@@ -40,8 +30,8 @@ for p in props:
             "evidence_file": f"evidence/{pid}.json",
             "replay_cmd_template": "./check --replay {path}",
             "engine": "vx",
-            "level_claimed": {"category": "model_checking", "text": text, "design_ref": ref},
-            "level_note": note,
+            "level_claimed": {"category": "model_checking", "text": c["text"], "design_ref": c.get("ref", "DESIGN.md section 6 " + pid)},
+            "level_note": c["note"] + " " + TRUST,
             "technique": TECH,
         })
 
